@@ -48,7 +48,10 @@ theorem C17_empty_patterns (loc : Bytes) : opens [] loc = none := by
   by_cases h : isAbs loc <;> simp [h]
 
 /-- Relative paths and `file:`, `ftp:` … locations (anything not starting
-with `/`) are never opened as local files: they go to the HTTP client. -/
+with `/`) are never opened as local files by `reader`: they go to the HTTP
+client.  That the client itself cannot serve a local file is not an assumption
+about `net/http` made here but the extracted fact `C17_T_client_http_only`
+(and is observed on the client built by `home` in `TestVerifC17Home`). -/
 theorem C17_nonabs_never_local (pats : List Bytes) (loc : Bytes) (h : isAbs loc = false) :
     reader pats loc = .http ∧ opens pats loc = none := by
   simp [opens, reader, h]
@@ -448,6 +451,17 @@ store into `DNSFilter.safeFSPatterns` in the module is the append, in
 configured" really is the empty list of `C17_empty_patterns`.) -/
 theorem C17_T_patterns_exactly_configured :
     Gen.patternWrites.length = 1 ∧ ∀ w ∈ Gen.patternWrites, w.kind = 1 := by
+  decide +kernel
+
+/-- The client that `reader` hands every non-absolute location to speaks http
+and https only: the single store into `filtering.Config.HTTPClient` is the
+result of a function (`home.httpClient`) that returns a literal
+`&http.Client{Transport: &http.Transport{…}}`, and nothing in the module
+registers another protocol on a transport (`RegisterProtocol`,
+`NewFileTransport`, `NewFileTransportFS`: 0 uses).  This is the fact behind
+`C17_nonabs_never_local`: "handed to the HTTP client" means "no local file". -/
+theorem C17_T_client_http_only :
+    Gen.protocolRegistrations = 0 ∧ Gen.clientWrites.length = 1 ∧ ∀ w ∈ Gen.clientWrites, w.kind = 1 := by
   decide +kernel
 
 /-! ### Observations about the unchanged code (not violations of C17: a crash
